@@ -611,9 +611,11 @@ def plan(run, rng):
                 centers.sort()
             elif order == "reverse":
                 centers.sort(reverse=True)
+            # every dimension is drawn independently (cyclic index patterns tie dimensions together: stored densities used to
+            # meet random conventions only with restricted open-shell orbitals, whose SCF density the FCHK reader drops)
             cfg = {"fmt": fmt, "allow": bool(i % 2), "natom": natom, "ghost": rng.choice(["none", "none", "ghost", "ecp"]),
-                   "shells": list(zip(centers, cons_list)), "order": order, "conv": convs[i % len(convs)], "mo": mos[(i // 2) % len(mos)],
-                   "virtuals": bool((i // 3) % 2), "rdms": fmt == "fchk" and i % 3 == 0, "big": i % 12 == 5}
+                   "shells": list(zip(centers, cons_list)), "order": order, "conv": rng.choice(convs), "mo": rng.choice(mos),
+                   "virtuals": rng.random() < 0.5, "rdms": fmt == "fchk" and rng.random() < 0.45, "big": rng.random() < 0.08}
             tasks.append((cfg, rng.randint(0, 10**9), run.thorough() and i % 40 == 0))
     # every permutation of a 3-shell multiset that mixes centres, for every format (thorough)
     if run.thorough():
